@@ -226,6 +226,10 @@ def unparse_Constant(node: Constant, qm: typing.Literal["'", '"']) -> unparse_ge
     if isinstance(node.value, str):
         value = get_unescaped_str(node.value, qm)
         return f"{qm}{value}{qm}"
+    if isinstance(node.value, bytes):
+        # like str: use the quote that is free at this nesting level of f-strings
+        value = get_unescaped_str(node.value.decode("latin-1"), qm)
+        return f"b{qm}{value}{qm}"
     if isinstance(node.value, (float, complex)):
         # repr() of a non-finite number is a name, not a literal
         return repr(node.value).replace("inf", "1e309")
